@@ -1502,7 +1502,10 @@ func (self *LockManagerData) GetValueOffset() int {
 		return 6
 	}
 	if self.data[5]&protocol.LOCK_DATA_FLAG_CONTAINS_PROPERTY != 0 {
-		return (int(self.data[6]) | (int(self.data[7]) << 8)) + 8
+		if offset := (int(self.data[6]) | (int(self.data[7]) << 8)) + 8; offset <= len(self.data) {
+			return offset
+		}
+		return len(self.data)
 	}
 	return 6
 }
